@@ -32,7 +32,7 @@ def enum_adt(u, self_ty):
 
 def fold_engine(prog, unit):
     def inl(n, r):
-        return r.startswith(("scpi::parser::tokenizer::util::", "scpi::option::ScpiEnum::")) or n.startswith(("scpi::parser::tokenizer::util::", "scpi::option::ScpiEnum::")) or "as scpi::option::ScpiEnum>" in r or "as option::ScpiEnum>" in r
+        return r.startswith(("scpi::parser::tokenizer::", "scpi::option::ScpiEnum::")) or n.startswith(("scpi::parser::tokenizer::", "scpi::option::ScpiEnum::")) or "as scpi::option::ScpiEnum>" in r or "as option::ScpiEnum>" in r
     return fdai.Engine(prog, unit, inline=inl, models=M.FOLD_MODELS, loop_limit=60, max_depth=12)
 
 
@@ -159,7 +159,7 @@ def run(R, tier):
             calls = [e for e in r.trace if e.kind == "call" and e.name.split("::")[-1] in ("mnemonic_match", "mnemonic_compare")]
             asg = [e for e in r.trace if e.kind == "assume" and e.name == "sym" and isinstance(e.args[0][2], tuple) and e.args[0][2][0] == "ret" and e.args[0][2][1].split("::")[-1] in ("mnemonic_match", "mnemonic_compare")]
             for c in calls:
-                if not (c.rname in MATCHERS or c.name in MATCHERS or c.name == "scpi::parser::mnemonic_match"):
+                if not (c.rname in MATCHERS or c.name in MATCHERS or c.name == "scpi::parser::mnemonic_match" or (c.rname.startswith("scpi::parser::") and c.rname.endswith("::mnemonic_match"))):
                     matcher_ok = False
                 if c.name.split("::")[-1] != "mnemonic_match":
                     matcher_ok = False
@@ -198,13 +198,20 @@ def run(R, tier):
             R.check(not badsel, "R20.5", "%s:selection" % label, "a datum selects the first declared variant whose mnemonic it matches (short/long form, any case, default-1 suffix) and nothing else (%d texts)" % nsel, "; ".join(badsel[:4]), where=fm.span)
         # ---- R20.2 TryFrom<Token> row ---------------------------------------------------------------------------------
         engc = CV.engine("dflt", "scpi")
-        engc = fdai.Engine(prog, u, inline=lambda n, r: False, models={})
+        # helpers of scpi::option shared by all generated impls (an ordinary generic function the macro calls) are analysed
+        # in place; from_mnemonic stays an event, whose Self type must be this enum
+        from . import dispatch as D_
+        _opt = D_.inline_inherent(("scpi::option::",))
+        engc = fdai.Engine(prog, u, inline=lambda n, r: _opt(n, r), models={})
         rowbad = {}
         for name in M.DATA:
             rr = engc.run(tf, [M.token(engc, name)])
             oc = {M.outcome(r) for r in rr}
             if name == "CharacterProgramData":
-                calls_ok = all(any(e.kind == "call" and e.name.endswith("from_mnemonic") and ("tok-CharacterProgramData-0") in repr(e.args[0]) for e in r.trace) for r in rr)
+                def own(e):
+                    g = " ".join(str(x) for x in ((e.extra or {}).get("gargs") or ())) + " " + str((e.extra or {}).get("self_ty") or "") + " " + str(e.rname)
+                    return adt_path.split("::")[-1] in g or "Self" in g
+                calls_ok = all(any(e.kind == "call" and e.name.endswith("from_mnemonic") and ("tok-CharacterProgramData-0") in repr(e.args[0]) and own(e) for e in r.trace) for r in rr)
                 if not (oc == {"Ok", "Err(IllegalParameterValue)"} and calls_ok):
                     rowbad[name] = sorted(oc)
             elif oc != {"Err(DataTypeError)"}:
